@@ -125,6 +125,7 @@ class Exec:
         self._obn = {}
         self._dedupe = set()
         self._collector = None
+        self.abstract_calls = False
         self.is_generator = any(isinstance(n, (ast.Yield, ast.YieldFrom)) for n in ast.walk(fsrc.node))
 
     # ----------------------------------------------------------- obligations
